@@ -16,7 +16,7 @@ RULE = ('A formula from the typed grammar and two printings of it: canonical (ke
         'dropped ";" / assertion head, white space or a comment after the final ";", and minimal parentheses computed from the precedence table transcribed from the grammar file '
         '(binary operators left-associative, prefix operands extend over tighter binary operators). Lanes: discrete offline (all '
         'operators), discrete online (past operators), unless[a,b] versus its documented expansion, untimed unless versus always phi or phi until psi on both front ends, LTL front end on untimed formulas '
-        '(offline and pastified online) versus the STL front end. Lane embedded: the variant is the requirement of a text that declares its variables itself (input/output float v, with or without an initialising literal or expression, one declaration per line or all on one line) instead of through the API. Oracle: identical results (a variant that raises where the canonical '
+        '(offline and pastified online) versus the STL front end. Lane embedded: the variant is the requirement of a text that declares its variables itself (input/output float v, with or without an initialising literal or expression, one declaration per line or all on one line) instead of through the API. Lane headless_ref: two requirements, the first written with or without its head (out =), the second reads it as out; also compared with the reference for the second requirement with the first one substituted. Oracle: identical results (a variant that raises where the canonical '
         'text evaluates is a difference). Non-trivial = the variant differs from the canonical text in >= 2 token kinds or parentheses '
         'were dropped, and the result is not constant; distinct = distinct (canonical text, variant text, trace) digests.')
 
@@ -328,3 +328,58 @@ LANES = [
     Lane('ltl_off', lambda tier: cases(tier, 'ltl_off'), check, 3000, 30000, std_candidates),
     Lane('ltl_on', lambda tier: cases(tier, 'ltl_on'), check, 5000, 50000, std_candidates),
 ]
+
+
+# ---- a requirement without head that a later requirement refers to as `out` -------------------------------------------
+
+@st.composite
+def headless_ref_cases(draw, tier):
+    """Two requirements: the first one (P) is written with or without its head `out =`, the second one (r = G) reads `out`."""
+    kind = draw(st.sampled_from(['dt_off', 'dt_off', 'dt_on']))
+    prof = (FULL if kind == 'dt_off' else PAST).copy(max_depth=3)
+    p, vs = draw(F.formulas(prof))
+    g, _ = draw(F.formulas(prof, variables=vs + ['out']))
+    if 'out' not in F.fvars(g):
+        g = ('bin', draw(st.sampled_from(['and', 'or', 'implies'])), ('var', 'out'), g) if draw(st.booleans()) else ('un', draw(st.sampled_from(['once', 'historically', 'not'])), ('var', 'out'))
+    n = draw(F.trace_lengths(10))
+    return {'kind': kind, 'p': p, 'g': g, 'vars': vs, 'trace': draw(F.traces(vs, n=n))}
+
+
+def check_headless_ref(case):
+    """`P; r = G(out)` against `out = P; r = G(out)` and against the reference for G with P substituted for out."""
+    from ..modular import replace
+    from ..refsem import dt, Undefined, needs_tolerance, same
+    p, g = from_json(case['p']), from_json(case['g'])
+    kind = case['kind']
+    vs = list(case['vars'])
+    full = replace(g, ('var', 'out'), p)
+    used = F.fvars(full)
+    labels = ['kind:' + kind, 'headless-requirement-read-as-out'] + feature_labels(full)
+    if not used:
+        return DISCARD('no-variable', labels)
+    feed = [v for v in vs if v in used]
+    tr = {v: [float(x) for x in case['trace'][v]] for v in feed}
+    n = len(tr[feed[0]])
+    try:
+        ref = dt(full, tr, n)
+    except Undefined:
+        return DISCARD('undefined', labels)
+    canon = 'out = %s; r = %s' % (show(p), show(g))
+    variant = '%s; r = %s' % (show(p), show(g))
+    oc = run_kind(kind, canon, feed, tr)
+    ov = run_kind(kind, variant, feed, tr)
+    if oc[0] != 'ok':
+        return DISCARD('canonical-raises(C17):' + oc[1], labels)
+    desc = 'monitor %s\nwith head:    %s\nwithout head: %s\ntrace: %s' % (kind, canon, variant, tr)
+    if ov[0] != 'ok':
+        return FAIL('variant-raises:%s@%s' % (ov[1], ov[4].split(':')[-1]), desc + '\nthe text without the head raised %s: %s at %s' % (ov[1], ov[3], ov[4]), labels)
+    vc, vv = oc[1], ov[1]
+    tol = needs_tolerance(full)
+    if len(vc) != len(vv) or any(not same(a, b, tol) for a, b in zip(vc, vv)):
+        return FAIL('headless-differs:' + kind, desc + '\nwith head:    %s\nwithout head: %s' % (fmt_vals(vc), fmt_vals(vv)), labels)
+    if any(not same(a, b, tol) for a, b in zip(vc, ref)):
+        return DISCARD('canonical-differs-from-reference(C09)', labels)
+    return PASS(F.n_temporal(full) >= 1 and len(set(ref)) > 1, labels)
+
+
+LANES.append(Lane('headless_ref', lambda tier: headless_ref_cases(tier), check_headless_ref, 1500, 15000, None))
